@@ -42,6 +42,7 @@ type genScenario struct {
 	Deprecated bool         `json:"deprecated"`
 	Golden     bool         `json:"golden"`
 	Build      bool         `json:"build"`
+	Sibling    bool         `json:"sibling"`
 }
 
 func init() { families["gen"] = runGen }
@@ -267,6 +268,20 @@ func runGen(raw json.RawMessage, seed int64, rec *Rec) {
 	fd.SourceCodeInfo = sci
 	req := &pluginpb.CodeGeneratorRequest{FileToGenerate: []string{"t/test.proto"},
 		ProtoFile: []*descriptorpb.FileDescriptorProto{empty, fd}}
+	if s.Sibling {
+		// the same invocation generates another file first: another package, the same service and method names, at
+		// least one service whatever this file declares
+		sib := proto.Clone(fd).(*descriptorpb.FileDescriptorProto)
+		sib.Name = proto.String("t0/other.proto")
+		sib.Package = proto.String("other.v0")
+		sib.Options = &descriptorpb.FileOptions{GoPackage: proto.String("example.com/gen/t0;t0pb")}
+		sib.SourceCodeInfo = nil
+		sib.Service = append(sib.Service, &descriptorpb.ServiceDescriptorProto{Name: proto.String("OnlyHere"),
+			Method: []*descriptorpb.MethodDescriptorProto{{Name: proto.String("Do"),
+				InputType: proto.String(".google.protobuf.Empty"), OutputType: proto.String(".google.protobuf.Empty")}}})
+		req.FileToGenerate = []string{"t0/other.proto", "t/test.proto"}
+		req.ProtoFile = []*descriptorpb.FileDescriptorProto{empty, sib, fd}
+	}
 	resp, stderr, err := runPlugin(req)
 	if err != nil || resp.GetError() != "" {
 		msg := stderr
@@ -282,7 +297,12 @@ func runGen(raw json.RawMessage, seed int64, rec *Rec) {
 	parses, builds := true, true
 	var services []extracted
 	detail := ""
+	nfiles := 0
 	for _, f := range resp.File {
+		if strings.Contains(f.GetName(), "other.connect.go") {
+			continue // the sibling's output
+		}
+		nfiles++
 		file, perr := parser.ParseFile(token.NewFileSet(), f.GetName(), f.GetContent(), 0)
 		if perr != nil {
 			parses, builds = false, false
@@ -306,7 +326,7 @@ func runGen(raw json.RawMessage, seed int64, rec *Rec) {
 	if services == nil {
 		services = []extracted{}
 	}
-	rec.Add(E("gen", "ok", true, "deterministic", det, "parses", parses, "builds", builds, "files", len(resp.File),
+	rec.Add(E("gen", "ok", true, "deterministic", det, "parses", parses, "builds", builds, "files", nfiles,
 		"services", services, "detail", detail))
 }
 
